@@ -5,6 +5,7 @@ import Gengo.Driver.Tracker
 import Gengo.Driver.Namer
 import Gengo.Driver.Writer
 import Gengo.Driver.Exec
+import Gengo.Driver.Order
 open Gengo Gengo.Proto
 
 /-- state of the stateful components (one history at a time per component) -/
@@ -18,6 +19,7 @@ def dispatch (s : DState) (f : List Str) : DState × Str :=
   | c :: rest =>
     if c = str "tags" then (s, Driver.Tags.handle rest)
     else if c = str "json" then (s, Driver.JsonTag.handle rest)
+    else if c = str "ord" then (s, Driver.Order.handle rest)
     else if c = str "nm" then (s, Driver.Namer.handle rest)
     else if c = str "trk" then
       let (t, o) := Driver.Tracker.handle s.trk rest
